@@ -12,6 +12,13 @@ import (
 type DB struct {
 	tables  map[string]*Table
 	aliases map[string]string
+	// NewAnalyzer selects the reading of the analyzer that is the default since ClickHouse
+	// 24.3 where the two analyzers differ. Currently one point: HAVING in a SELECT with
+	// neither GROUP BY nor aggregate functions is a row filter (it sees the SELECT aliases,
+	// like WHERE) instead of being refused (the old analyzer turns such a query into an
+	// aggregation and raises NOT_AN_AGGREGATE). Default false: such statements give
+	// ErrUnsupported.
+	NewAnalyzer bool
 }
 
 // Table is a named relation: column names + rows of values (see values.go for the cell
@@ -533,12 +540,12 @@ func (ex *execCtx) execSelect(s *Select) (*rel, error) {
 	if having != nil && containsAgg(having) {
 		isAgg = true
 	}
-	if having != nil && !isAgg {
+	if having != nil && !isAgg && !cx.db.NewAnalyzer {
 		// HAVING with neither GROUP BY nor aggregates: the old analyzer turns the query into an
 		// aggregation without keys (ExpressionAnalyzer::analyzeAggregation: "groupBy() ||
 		// having() => has_aggregation"), so plain columns in SELECT raise NOT_AN_AGGREGATE;
 		// the new analyzer (default since 24.3) applies HAVING as a filter. Version-dependent:
-		// not modelled.
+		// modelled only on request (DB.NewAnalyzer: HAVING is then checked row by row in emit).
 		return nil, unsupported("HAVING without GROUP BY or aggregate functions (behaviour differs between ClickHouse analyzers)")
 	}
 
